@@ -7,7 +7,7 @@ open Kevo Kevo.Block
 
 /-- same body as `Kevo.Proofs.Table.EntryWF` (that file imports this one). -/
 def EWF (e : BEntry) : Prop :=
-  1 ≤ e.key.length ∧ e.key.length ≤ 65535 ∧ (∀ v, e.val = some v → v.length < 2 ^ 32 - 1) ∧ e.seq < 2 ^ 64
+  e.key.length ≤ 65535 ∧ (∀ v, e.val = some v → v.length < 2 ^ 32 - 1) ∧ e.seq < 2 ^ 64
 
 def HOK (hash : Bytes → Nat) : Prop := ∀ bs, hash bs < 2 ^ 64
 
@@ -199,7 +199,7 @@ theorem decodeAt_enc (r : Reader) (pfx rest : Bytes) (isR : Bool) (prev : Bytes)
     (hR : (r.restarts.contains pfx.length || prevOpt.isNone) = isR)
     (hprev : isR = false → prevOpt = some prev) :
     decodeAt r pfx.length prevOpt = some (e, pfx.length + (encEntry isR prev e).length) := by
-  obtain ⟨hk1, hk2, hv, hs⟩ := he
+  obtain ⟨hk2, hv, hs⟩ := he
   have hdrop : r.data.drop pfx.length = encEntry isR prev e ++ rest := by
     rw [hdata, List.append_assoc]; exact List.drop_left' rfl
   rw [decodeAt_eq, if_neg (by omega), hdrop, hR, encEntry_length]
